@@ -235,9 +235,8 @@ def decValue (s : Bytes) : Option Nat :=
     Hence the freedom: any non-empty lower-case hex numeral (with leading zeros) for a tag, any
     non-empty decimal numeral (with leading zeros) for k and n.  Upper-case hex is NOT what `%x`
     produces. `IsFragmentV3` is this relation.
-    DEVIATION of the library: when the armoured length is a multiple of the payload size per fragment,
-    its last fragment has an EMPTY piece ("?OTR,00004,00004,,"), violating "each piece[k] must be
-    non-empty"; see `Otr.deviation_fragment_last_piece_empty`, `Otr.deviation_fragment_example`. -/
+    (The library used to emit an EMPTY last piece when the armoured length was a multiple of the
+    payload size per fragment; repaired, see `Otr.fragment_allowed`.) -/
 def IsFragmentV3 (sender receiver k n : Nat) (piece frag : Bytes) : Prop :=
   ∃ hs hr dk dn : Bytes,
     hs ≠ [] ∧ hr ≠ [] ∧ dk ≠ [] ∧ dn ≠ [] ∧
@@ -482,8 +481,7 @@ def smpSecret (K : Crypto) (initiatorFP responderFP ssid userSecret : Bytes) : N
   bytesToNat (K.hash2 (smpSecretInput initiatorFP responderFP ssid userSecret))
 
 /-- SMP: "check that g2a, g3a are >= 2 and <= modulus−2", "D2, D3 are >= 1 and < order".
-    DEVIATIONS of the library (receiving side): the exponent range is never checked
-    (`Otr.deviation_smp_exponent_range`); in version 2 conversations the group element check is
+    DEVIATION of the library (receiving side): in version 2 conversations the group element check is
     `n mod p ≠ 0` (`Otr.deviation_smp_v2_group_element`, known as C12). -/
 def smpValidGroupElement (x : Nat) : Prop := 2 ≤ x ∧ x ≤ dhP - 2
 def smpValidExponent (x : Nat) : Prop := 1 ≤ x ∧ x < dhQ
@@ -492,9 +490,11 @@ def smpValidExponent (x : Nat) : Prop := 1 ≤ x ∧ x < dhQ
 ## Summary of deviations of coyim/otr3 from this specification (proved in Proofs/Spec.lean)
 
   1. SMP abort TLV carries a 4-byte value (00 00 00 00) instead of an empty one   — `deviation_smpAbort`
-  2. last fragment may carry an empty piece                                        — `deviation_fragment_*`
-  3. SMP exponents D2..D7 are not range-checked on receipt                         — `deviation_smp_exponent_range`
-  4. OTRv2 SMP group elements are only checked to be ≠ 0 mod p (C12)               — `deviation_smp_v2_group_element`
+     (pinned by the library's unit tests; recorded as a known finding of C10)
+  2. OTRv2 SMP group elements are only checked to be ≠ 0 mod p (C12)               — `deviation_smp_v2_group_element`
+     (pinned by the library's unit tests; known finding of C12)
+  Repaired in the library after this specification exposed them: the last fragment could carry an empty
+  piece (`fragment_allowed`); SMP exponents D2..D7 were not range-checked on receipt (`isExponent_spec`).
 
   Not deviations, but freedoms of the spec the library uses in a particular way: the NUL after the message is
   always written; every data message is padded with one type-0 TLV computed from the message length only
